@@ -488,3 +488,8 @@ def run(ctx):
             ctx.lost("R05.9", "stored-direction instances")
     except Exception as e:
         ctx.undetermined("R05.9", "stored-direction", str(e)[:200])
+
+
+    # ---------------------------------------------------------------- R05.6 (addition)
+    # the funding-adjusted margin of R05.6 charges funding through a helper with a shortcut for an empty position
+    funding_shortcut_instances(ctx, "R05.6")
